@@ -28,9 +28,11 @@ class ExprMixin:
 
     def ex_Name(self, node):
         name = node.id
-        for fr in reversed(self.frames[-1:]):
+        fr = self.frames[-1]
+        while fr is not None:
             if name in fr.locals:
                 return fr.locals[name]
+            fr = getattr(fr, 'closure', None)
         return self.global_name(self.frames[-1].module, name, node)
 
     def global_name(self, mod, name, node=None):
@@ -146,8 +148,17 @@ class ExprMixin:
         return seqops.format_value(self, val, spec, node)
 
     def ex_Lambda(self, node):
-        self.note_unknown(node, 'lambda')
-        return UnkV('lambda')
+        from .model import FuncInfo
+        fr = self.frames[-1]
+        fn = ast.FunctionDef(name='<lambda>', args=node.args, body=[ast.Return(value=node.body)], decorator_list=[],
+                             returns=None, type_comment=None)
+        ast.copy_location(fn, node)
+        ast.fix_missing_locations(fn)
+        outer = fr.fi.qualname if fr.fi is not None else fr.module.name
+        fi = FuncInfo(f'{outer}.<locals>.<lambda>', fn, fr.module, None)
+        fv = FuncV(fi)
+        fv.closure = fr
+        return fv
 
     def ex_Starred(self, node):
         return self.eval(node.value)
